@@ -500,6 +500,13 @@ class Guards:
                 m = mirror_expr(e)
                 if m is not None:
                     yield b.idx, b.term, m
+                # `opt.is_some_and(|x| P(x))` is the test `P(payload of opt)` taken only when there is a payload: its true edge implies P, its
+                # false edge "no payload or not P". Rules that look for the test P find it reported on the same switch, in the caller's terms.
+                for le in lift_option_predicates(self.facts, e):
+                    yield b.idx, b.term, le
+                    m = mirror_expr(le)
+                    if m is not None:
+                        yield b.idx, b.term, m
 
     def variant_names(self, bidx):
         """for a switch on discriminant(place): value -> variant name, using downcasts found in the
@@ -1302,6 +1309,47 @@ def reachable_flags(body, prov, start, removed_edges=(), removed_blocks=()):
     return set(states)
 
 
+def _alts(x):
+    return list(x[1]) if isinstance(x, tuple) and x and x[0] == "phi" else [x]
+
+
+def _project(base, name):
+    """field `name` of `base` when base is known to be an aggregate (or alternatives of aggregates): `(a, b).0` is a;
+    `(Ok(x) | Err(e) as Ok).0` is x; `(Try::branch(Err(..) | Ok(x)) as Continue).0` is x - what a value extracted into a helper and handed
+    back through a tuple or `?` looks like. None when the value is not statically an aggregate."""
+    if not isinstance(base, tuple) or not base:
+        return None
+    if base[0] == "agg":
+        d = dict(base[2])
+        if name not in d and isinstance(base[1], str) and "::" in base[1] and not base[1].startswith("closure:"):
+            return ("infeasible",)      # `None.0`: the payload of a variant this alternative is not
+        return d.get(name)
+    if base[0] == "phi":
+        ps = [x for x in (_project(a, name) for a in base[1]) if x != ("infeasible",)]
+        if not ps:
+            return ("infeasible",)
+        if ps and all(x is not None for x in ps):
+            return ps[0] if len(ps) == 1 else ("phi", tuple(ps))
+        return None
+    if base[0] == "as" and len(base) > 2:
+        x, want = base[1], base[2]
+        if isinstance(x, tuple) and x and x[0] == "call" and re.search(r"Try>?::branch$", short(x[1])) and x[2]:
+            x = x[2][0]
+            want = {"Continue": ("Ok", "Some"), "Break": ()}.get(want, ())
+        else:
+            want = (want,)
+        alts = _alts(x)
+        if not alts or not all(isinstance(a, tuple) and a and a[0] == "agg" for a in alts):
+            return None
+        picks = [a for a in alts if isinstance(a[1], str) and a[1].split("::")[-1] in want]
+        if not picks and want:
+            return ("infeasible",)      # e.g. `(None as Some).0`: an alternative that cannot be the value on this path
+        ps = [dict(a[2]).get(name) for a in picks]
+        if ps and all(v is not None for v in ps):
+            return ps[0] if len(ps) == 1 else ("phi", tuple(ps))
+    return None
+
+
 def canon(e, depth=0):
     """the expression with every transparent call (clone, deref, to_vec, Box::new, into, ..) removed at every level;
     alternatives are kept as a sorted phi"""
@@ -1312,10 +1360,23 @@ def canon(e, depth=0):
         k = r[0]
         if k == "call":
             outs.append(("call", r[1], tuple(canon(a, depth + 1) for a in r[2])) + tuple(r[3:]))
-        elif k in ("field", "as", "index"):
+        elif k == "field":
+            base = canon(r[1], depth + 1)
+            sel = _project(base, r[2]) if len(r) > 2 else None
+            if sel == ("infeasible",):
+                continue
+            if sel is not None:
+                outs.append(canon(sel, depth + 1))
+            else:
+                outs.append((k, base) + tuple(r[2:]))
+        elif k in ("as", "index"):
             outs.append((k, canon(r[1], depth + 1)) + tuple(r[2:]))
         elif k == "agg":
             outs.append(("agg", r[1], tuple((n, canon(v, depth + 1)) for n, v in r[2])) + tuple(r[3:]))
+        elif k == "bin" and len(r) >= 4:
+            outs.append(("bin", r[1], canon(r[2], depth + 1), canon(r[3], depth + 1)) + tuple(r[4:]))
+        elif k == "un" and len(r) >= 3:
+            outs.append(("un", r[1], canon(r[2], depth + 1)) + tuple(r[3:]))
         else:
             outs.append(r)
     uniq = []
@@ -1324,6 +1385,8 @@ def canon(e, depth=0):
             uniq.append(o)
     if len(uniq) == 1:
         return uniq[0]
+    if not uniq:
+        return ("unknown", "infeasible")
     return ("phi", tuple(sorted(uniq, key=lambda x: fmt(x))))
 
 
@@ -1536,3 +1599,147 @@ def structural_eq(facts, adt_path):
     if missing:
         return False, "hand-written eq does not compare %s" % ", ".join(missing)
     return True, "hand-written, compares %s" % ", ".join(fields)
+
+
+def subst_expr(e, fn):
+    """rebuild expression `e` bottom-up, replacing every sub-expression for which fn returns a value"""
+    r = fn(e)
+    if r is not None:
+        return r
+    if not isinstance(e, tuple):
+        return e
+    return tuple(subst_expr(x, fn) if isinstance(x, tuple) else x for x in e)
+
+
+def closure_return_in_caller_terms(facts, clo, arg_exprs):
+    """for a closure value `clo` (('agg', 'closure:PATH', captures)) called with the argument expressions `arg_exprs`: the closure's return
+    expression with its parameters replaced by the arguments and its captured variables by what was captured; None if not available"""
+    if not (isinstance(clo, tuple) and clo and clo[0] == "agg" and isinstance(clo[1], str) and clo[1].startswith("closure:")) or facts is None:
+        return None
+    cb = facts.bodies.get(clo[1][len("closure:"):]) or (getattr(facts, "detached", None) or {}).get(clo[1][len("closure:"):])
+    if cb is None or len(cb.blocks) > 400:
+        return None
+    caps = dict(clo[2]) if len(clo) > 2 else {}
+    ret = canon(Prov(cb, facts).local(0))
+
+    def fn(x):
+        if isinstance(x, tuple) and x:
+            if x[0] == "param" and len(x) > 1 and isinstance(x[1], int) and 2 <= x[1] < 2 + len(arg_exprs):
+                return arg_exprs[x[1] - 2]
+            if x[0] == "upvar" and len(x) > 1 and x[1] in caps:
+                return caps[x[1]]
+        return None
+    return subst_expr(ret, fn)
+
+
+def lift_option_predicates(facts, e):
+    """the predicate(s) hidden in a closure of `Option::is_some_and` / `is_none_or` / `map_or(bool, ..)` / `Result::is_ok_and`, rewritten in
+    the caller's terms and with the polarity of the whole expression (so the switch's true edge implies what is returned for is_some_and,
+    and its false edge implies the negation of what is returned for is_none_or)"""
+    if facts is None:
+        return []
+    neg = False
+    x = e
+    while isinstance(x, tuple) and x and x[0] == "un" and x[1] == "Not":
+        x, neg = x[2], not neg
+    x = canon(x) if isinstance(x, tuple) else x
+    if not (isinstance(x, tuple) and x and x[0] == "call"):
+        return []
+    n = short(x[1])
+    m = re.search(r"(Option|Result)(::<.*>)?::(is_some_and|is_none_or|is_ok_and|is_err_and|map_or)$", n)
+    if not m:
+        return []
+    which = m.group(3)
+    args = x[2]
+    if which == "map_or":
+        if len(args) != 3 or const_int_of(args[1]) not in (0, 1):
+            return []
+        opt, clo = args[0], args[2]
+    else:
+        if len(args) != 2:
+            return []
+        opt, clo = args[0], args[1]
+    variant = "Err" if which == "is_err_and" else ("Ok" if which == "is_ok_and" else "Some")
+    payload = ("field", ("as", opt, variant), "0")
+    inner = closure_return_in_caller_terms(facts, clo, [payload])
+    if inner is None:
+        return []
+    out = inner
+    if neg:
+        out = ("un", "Not", out)
+    return [out]
+
+
+def closures_of(facts, body, depth=0):
+    """the closure bodies constructed in `body` (transitively), each with a function that rewrites one of its expressions into the terms of
+    `body` (captured variables replaced by what was captured; the closure's own parameters stay as they are): [(closure body, Prov, to_caller)]"""
+    out = []
+    if facts is None or depth > 2:
+        return out
+    p = Prov(body, facts)
+    seen = set()
+    for blk in body.blocks:
+        if blk.cleanup or blk.idx not in body.live_blocks():
+            continue
+        for st in blk.stmts:
+            if st.k == "a" and st.rv.k == "agg" and st.rv.j.get("ak") == "closure":
+                path = st.rv.j.get("def")
+                cb = facts.bodies.get(path) or (getattr(facts, "detached", None) or {}).get(path)
+                if cb is None or path in seen or len(cb.blocks) > 400:
+                    continue
+                seen.add(path)
+                caps = dict(zip(st.rv.j.get("fields") or [], [p.operand(o) for o in st.rv.ops]))
+
+                def to_caller(e, caps=caps):
+                    return subst_expr(e, lambda x: caps.get(x[1]) if isinstance(x, tuple) and x and x[0] == "upvar" and len(x) > 1 and x[1] in caps else None)
+                cp = Prov(cb, facts)
+                out.append((cb, cp, to_caller))
+                for cb2, cp2, tc2 in closures_of(facts, cb, depth + 1):
+                    out.append((cb2, cp2, lambda e, tc2=tc2, to_caller=to_caller: to_caller(tc2(e))))
+    return out
+
+
+def _lin_plus(a, b):
+    return None if a is None or b is None else _lin_add(a, b, 1)
+
+
+def slice_span(e, depth=0):
+    """an expression that denotes a sub-slice, normalised to (base expression, start, end) with start / end as affine forms (end None = up
+    to the end of the base). Understands `b[s..e]`, `b[s..]`, `b[..e]`, `b[..]`, `b.split_at(n).0 / .1`, `b.get(range)` payloads, nested;
+    copies (`to_vec`, `to_owned`, `as_slice`, deref) are transparent. Anything else is its own base: (e, 0, None)."""
+    if depth > 12 or not isinstance(e, tuple):
+        return (e, ({}, 0), None)
+    e = canon(e)
+    if e[0] == "call" and len(e[2]) >= 1 and re.search(r"::(to_vec|to_owned|as_slice|as_ref|deref|borrow|clone|into_vec|as_mut_slice|deref_mut)$", short(e[1])) and len(e[2]) == 1:
+        return slice_span(e[2][0], depth + 1)
+    if e[0] == "field" and e[2] in ("0", "1") and isinstance(e[1], tuple) and e[1][0] == "call" and re.search(r"::split_at(_mut)?$", short(e[1][1])) and len(e[1][2]) == 2:
+        base, s0, e0 = slice_span(e[1][2][0], depth + 1)
+        n = linear(e[1][2][1])
+        mid = _lin_plus(s0, n)
+        if mid is None:
+            return (e, ({}, 0), None)
+        return (base, s0, mid) if e[2] == "0" else (base, mid, e0)
+    if e[0] == "field" and e[2] == "0" and isinstance(e[1], tuple) and e[1][0] == "as" and isinstance(e[1][1], tuple) and e[1][1][0] == "call" and \
+            re.search(r"slice(::<.*>)?::get$|::get$", short(e[1][1][1])) and len(e[1][1][2]) == 2 and canon(e[1][1][2][1])[0] == "agg":
+        e = ("call", "core::slice::index::index", e[1][1][2], None)
+    if e[0] == "call" and len(e[2]) == 2 and re.search(r"slice::index::index(_mut)?$|ops::Index(Mut)?(<.*>)?>?::index(_mut)?$", short(e[1])):
+        base, s0, e0 = slice_span(e[2][0], depth + 1)
+        r = canon(e[2][1])
+        if r[0] == "agg" and isinstance(r[1], str):
+            kind = r[1].split("::")[-1]
+            f = dict(r[2]) if len(r) > 2 else {}
+            rs = re_ = None
+            if kind == "Range":
+                rs, re_ = linear(f.get("start")), linear(f.get("end"))
+            elif kind == "RangeFrom":
+                rs, re_ = linear(f.get("start")), "END"
+            elif kind == "RangeTo":
+                rs, re_ = ({}, 0), linear(f.get("end"))
+            elif kind == "RangeFull":
+                rs, re_ = ({}, 0), "END"
+            if rs is not None and re_ is not None:
+                ns = _lin_plus(s0, rs)
+                ne = e0 if re_ == "END" else _lin_plus(s0, re_)
+                if ns is not None and (re_ == "END" or ne is not None):
+                    return (base, ns, ne)
+    return (e, ({}, 0), None)
